@@ -75,6 +75,7 @@ def cases(tier, seed):
         out.append(f"b|{z}")
         out.append(f"a|{z}")
         out.append(f"c|{z}")
+    out.append("t|two-events")  # the inverse normalisation alone: a frame holding two transitions, in either order
     return out
 
 
@@ -443,8 +444,86 @@ def run_c(case: Case, zone, tier):
 REPLAY = {"dst": replay_dst, "daily": replay_daily, "hourly-predict": replay_hourly_predict}
 
 
+# ------------------------------------------------------------------ (t) _transform_dst alone: two transitions in one frame
+
+T_DAYS, T_HOURS = 4, (0, 2, 23)
+
+
+def _two_events_expected(y, events):
+    """independent statement: slot (d, h) of a 23-hour day is dropped; after slot (d, h) of a 25-hour day the mean of that
+    slot and the next one is inserted; every other slot passes through in order"""
+    drop = {24 * d + h for kind, d, h in events if kind == "skip"}
+    ins = {24 * d + h for kind, d, h in events if kind == "repeat"}
+    out = []
+    for pos in range(len(y)):
+        if pos in drop:
+            continue
+        out.append(y[pos])
+        if pos in ins:
+            nxt = y[pos + 1] if pos + 1 < len(y) else y[pos]
+            out.append((y[pos] + nxt) / 2)
+    return out
+
+
+def _two_events_run(events, y):
+    # _get_dst_indices lists each kind in calendar order
+    interp = sorted((d, h) for kind, d, h in events if kind == "skip")
+    mean = sorted((d, h) for kind, d, h in events if kind == "repeat")
+    return list(hm._transform_dst(y, (interp, mean)))
+
+
+def replay_two_events(inp):
+    events = [tuple(e) for e in inp["events"]]
+    y = np.arange(24 * T_DAYS, dtype=float) * 1.5 + 0.25
+    try:
+        got = _two_events_run(events, y)
+    except Exception as ex:
+        return True, f"{type(ex).__name__}: {str(ex)[:120]} for events {events}"
+    want = _two_events_expected(list(y), events)
+    bad = len(got) != len(want) or any(float(a) != float(b) for a, b in zip(got, want))
+    first = next((i for i, (a, b) in enumerate(zip(got, want)) if float(a) != float(b)), None)
+    return bad, f"events {events}: {len(got)} values (expected {len(want)}), first difference at output position {first}"
+
+
+def run_t(case):
+    n = 24 * T_DAYS
+    case.inputs = [z3.Real(f"y{i}") for i in range(n)]
+
+    def run():
+        k1, k2 = F.choose("kind1", ["skip", "repeat"]), F.choose("kind2", ["skip", "repeat"])
+        d1 = F.choose("day1", list(range(T_DAYS)))
+        d2 = F.choose("day2", [d for d in range(T_DAYS)])
+        # two clock changes are months apart; in this miniature at least one whole day lies between them
+        E.cur().assume(z3.Or(z3.Int("day1") - z3.Int("day2") >= 2, z3.Int("day2") - z3.Int("day1") >= 2))
+        h1, h2 = F.choose("hour1", list(T_HOURS)), F.choose("hour2", list(T_HOURS))
+        events = [(k1, d1, h1), (k2, d2, h2)]
+        y = symarr([real(f"y{i}") for i in range(n)])
+        return events, _two_events_run(events, y)
+
+    paths = case.explore(run)
+    for p in paths:
+        if p.outcome != "ret":
+            ev = "?"
+            case.prove(p, False, "inverse clock normalisation of a frame with two transitions does not raise", replay=("two-events", lambda mdl: dict(events=[["repeat", 0, 2], ["skip", 2, 2]])))
+            continue
+        events, got = p.value
+        rp = ("two-events", (lambda e: lambda mdl: dict(events=[list(x) for x in e]))(events))
+        want = _two_events_expected([z3.Real(f"y{i}") for i in range(n)], events)
+        ok = len(got) == len(want)
+        cl = z3.And([to_real(lift(a)) == b for a, b in zip(got, want)] + [z3.BoolVal(ok)])
+        case.prove(p, cl, "two transitions in one frame (either order): every real hour gets its slot's prediction, the skipped hour is absent, the repeated hour appears twice", replay=rp)
+        first, second = sorted(events, key=lambda e: e[1])
+        case.regime("repeated hour before a skipped hour in the same frame", first[0] == "repeat" and second[0] == "skip")
+    case.sample(dict(function="_transform_dst", days=T_DAYS, hours=list(T_HOURS), scenarios=len(paths)))
+
+
+REPLAY["two-events"] = replay_two_events
+
+
 def run_case(case: Case, name: str):
     part, zone = name.split("|")
+    if part == "t":
+        return run_t(case)
     if part == "b":
         run_b(case, zone, case.tier)
     elif part == "c":
